@@ -1,8 +1,89 @@
-/- Driver ops for C20 (none yet). -/
+/- Driver ops for C20: canonical form of a representation descriptor (`Model/Coerce.lean`). -/
 import Xrfmv.Drv.Common
+import Xrfmv.Model.Coerce
+
+open Lean Xrfmv.Drv
 
 namespace Xrfmv.Drv.C20
+open Xrfmv.Coerce
 
-def ops : List (String × Handler) := []
+def getContainer (j : Json) : Except String Container := do
+  match (← j.getObjValAs? String "container") with
+  | "ndarray" => pure .ndarray
+  | "tensor" => pure .tensor
+  | o => throw s!"bad-op: container {o}"
+
+def getDType (j : Json) : Except String DType := do
+  match (← j.getObjValAs? String "dtype") with
+  | "float16" => pure .f16 | "float32" => pure .f32 | "float64" => pure .f64
+  | "int8" => pure .i8 | "int16" => pure .i16 | "int32" => pure .i32 | "int64" => pure .i64
+  | "uint8" => pure .u8 | "bool" => pure .bool
+  | "uint16" => pure .u16 | "uint32" => pure .u32 | "uint64" => pure .u64
+  | o => throw s!"bad-op: dtype {o}"
+
+def getShape (j : Json) : Except String Shape := do
+  match (← j.getObjValAs? String "shape") with
+  | "vec" => pure .vec | "col" => pure .col | "mat" => pure .mat
+  | o => throw s!"bad-op: shape {o}"
+
+def getLogical (j : Json) : Except String Logical := do
+  match (← j.getObjValAs? String "logical") with
+  | "reg1" => pure .reg1 | "regK" => pure .regK | "binary" => pure .binary | "multi" => pure .multi
+  | o => throw s!"bad-op: logical {o}"
+
+def getMode (j : Json) : Except String Mode := do
+  match (← j.getObjValAs? String "mode") with
+  | "zero_one" => pure .zeroOne | "prevalence" => pure .prevalence
+  | o => throw s!"bad-op: mode {o}"
+
+def dtypeStr : DType → String
+  | .f16 => "float16" | .f32 => "float32" | .f64 => "float64" | .i8 => "int8" | .i16 => "int16" | .i32 => "int32"
+  | .i64 => "int64" | .u8 => "uint8" | .bool => "bool" | .u16 => "uint16" | .u32 => "uint32" | .u64 => "uint64"
+
+def colsStr : Cols → String
+  | .one => "one" | .outs => "outs" | .classes => "classes" | .classesM1 => "classesM1" | .feats => "feats"
+
+def canonJson (outs K d : Nat) (c : Canon) : Json :=
+  match c.shape with
+  | .vecN => Json.mkObj [("dtype", toJson (dtypeStr c.dtype)), ("ndim", toJson 1)]
+  | .matN cs => Json.mkObj [("dtype", toJson (dtypeStr c.dtype)), ("ndim", toJson 2), ("colsTag", toJson (colsStr cs)),
+                            ("cols", toJson (cs.eval outs K d))]
+
+def optCanonJson (outs K d : Nat) : Option Canon → Json
+  | some c => canonJson outs K d c
+  | none => Json.null
+
+/-- `{"op":"coerce","role":"X"|"y","container":..,"dtype":..,"shape":..,"logical":..,"mode":..,"outs":..,"K":..,"d":..}` -/
+def opCoerce : Handler := fun j => do
+  let r : Rep := { container := ← getContainer j, dtype := ← getDType j, shape := ← getShape j }
+  let outs ← j.getObjValAs? Nat "outs"
+  let K ← j.getObjValAs? Nat "K"
+  let d ← j.getObjValAs? Nat "d"
+  match (← j.getObjValAs? String "role") with
+  | "X" =>
+      pure <| Json.mkObj [("canon", canonJson outs K d (coerceX r)), ("documented", toJson (documentedX r)),
+                          ("canonical", toJson (decide (coerceX r = canonX)))]
+  | "y" =>
+      let l ← getLogical j
+      let m ← getMode j
+      pure <| Json.mkObj [("canon", optCanonJson outs K d (coerceY l m r)), ("documented", toJson (documentedY l r)),
+                          ("isClass", toJson (isClass r)),
+                          ("canonical", toJson (decide (coerceY l m r = some (canonY l m))))]
+  | o => throw s!"bad-op: role {o}"
+
+/-- `{"op":"output","logical":..,"mode":..,"api":"predict"|"predict_proba","outs":..,"K":..,"d":..}` -/
+def opOutput : Handler := fun j => do
+  let l ← getLogical j
+  let m ← getMode j
+  let outs ← j.getObjValAs? Nat "outs"
+  let K ← j.getObjValAs? Nat "K"
+  let d ← j.getObjValAs? Nat "d"
+  let a ← match (← j.getObjValAs? String "api") with
+    | "predict" => pure Api.predict
+    | "predict_proba" => pure Api.predictProba
+    | o => throw s!"bad-op: api {o}"
+  pure <| Json.mkObj [("canon", optCanonJson outs K d (output l m a))]
+
+def ops : List (String × Handler) := [("coerce", opCoerce), ("output", opOutput)]
 
 end Xrfmv.Drv.C20
